@@ -1126,3 +1126,30 @@ impl<Backing : AsRef<[u32]> + AsMut<[u32]>> DrawTarget<Backing> {
         writer.write_image_data(&output)
     }
 }
+
+/// Verification hooks (only with `--cfg raqote_verif`): read-only views of hidden state.
+#[cfg(raqote_verif)]
+impl<Backing : AsRef<[u32]> + AsMut<[u32]>> DrawTarget<Backing> {
+    pub fn verif_rasterizer_idle(&self) -> bool {
+        self.rasterizer.verif_is_idle()
+    }
+
+    pub fn verif_path_cursor(&self) -> (Option<Point>, Option<Point>) {
+        (self.current_point, self.first_point)
+    }
+
+    /// (clip stack depth, layer stack depth)
+    pub fn verif_stack_depths(&self) -> (usize, usize) {
+        (self.clip_stack.len(), self.layer_stack.len())
+    }
+
+    /// rect and full-surface coverage mask (if any) of clip stack entry `i` (0 = bottom)
+    pub fn verif_clip(&self, i: usize) -> Option<(IntRect, Option<&[u8]>)> {
+        self.clip_stack.get(i).map(|c| (c.rect, c.mask.as_deref()))
+    }
+
+    /// rect, pixels, opacity and blend mode of layer stack entry `i` (0 = bottom)
+    pub fn verif_layer(&self, i: usize) -> Option<(IntRect, &[u32], f32, BlendMode)> {
+        self.layer_stack.get(i).map(|l| (l.rect, &l.buf[..], l.opacity, l.blend))
+    }
+}
